@@ -22,8 +22,12 @@ every run; an included variant that stops building is a violation, an excluded o
   hoist_alloc(dim_vars=nz)        only temporaries with `nz` in their shape are hoisted
   ftrptr / diridx                 FtrPtrStackTransformation / DirectIdxStackTransformation (int_kind default JWIM, provided by the stub)
   rawstack                        TemporariesRawStackTransformation
-  pool(check_bounds=True|False, cray_ptr_loc_rhs=False|True)   TemporariesPoolAllocatorTransformation, built with -fcray-pointer
+  pool(check_bounds=True|False, cray_ptr_loc_rhs=False|True)   TemporariesPoolAllocatorTransformation; its Cray pointers need
+                                  `-fcray-pointer` (a gfortran language option, the only non-default flag used): included with
+                                  that flag and named as such in the evidence; not part of make_cases(d) as seen by C40/C41
 see VARIANTS / CONDITIONAL below for the list as triaged (ftrptr / diridx do not build on the pinned tree).
+Bounds: quick = every combination of <= 1 switch x all variants; thorough = quick + every pair of switches x one
+default-option variant per allocator family (PAIRED).
 
 Switches - one per branch visible in hoist_variables.py / stack_allocator.py / raw_stack_allocator.py / pool_allocator.py:
   base             one rank-2 real(jprb) temporary zt(nlon, nz)
@@ -38,7 +42,8 @@ Switches - one per branch visible in hoist_variables.py / stack_allocator.py / r
   section_use      `zx(:, 1) = ..`, `zx(start:end, 2) = ..` sections of a temporary
   pass_tmp         a temporary passed as actual argument to a nested kernel that fills it
   nested_seq       kernel calls inner1 then inner2 (siblings with different temporaries: max over paths)
-  nested_deep      inner1 calls inner3 (three levels)
+  nested_deep      inner1 calls inner3 (three levels; inner3 names its vertical extent `klev`, so sizes must be translated
+                   through the call signature)
   inner_twice_shrink / inner_twice_grow   inner1 called twice with different vertical extents (nz then nz-1 / nz-1 then nz)
   branch_skip      the inner call sits in a branch that is skipped for some inputs
   driver_twice     kernel called twice in the block loop
@@ -375,20 +380,20 @@ end module inner2_mod
 INNER3 = f'''module inner3_mod
   implicit none
 contains
-  subroutine inner3(start, end, nlon, nz, q)
+  subroutine inner3(start, end, nlon, klev, p)
 {USE_KINDS}    implicit none
-    integer(kind=jpim), intent(in) :: start, end, nlon, nz
-    real(kind=jprb), intent(inout) :: q(nlon, nz)
-    real(kind=jprb) :: zh(nlon, nz + 1)
+    integer(kind=jpim), intent(in) :: start, end, nlon, klev
+    real(kind=jprb), intent(inout) :: p(nlon, klev)
+    real(kind=jprb) :: zh(nlon, klev + 1)
     integer(kind=jpim) :: jl, jk
-    do jk = 1, nz + 1
+    do jk = 1, klev + 1
       do jl = start, end
         zh(jl, jk) = real(jk + jl, jprb) * 0.5_jprb
       end do
     end do
-    do jk = 1, nz
+    do jk = 1, klev
       do jl = start, end
-        q(jl, jk) = q(jl, jk) + zh(jl, jk + 1) * 0.25_jprb
+        p(jl, jk) = p(jl, jk) + zh(jl, jk + 1) * 0.25_jprb
       end do
     end do
   end subroutine inner3
@@ -425,14 +430,14 @@ def driver_source(sw):
     return f'''module driver_mod
   implicit none
 contains
-  subroutine driver(nlon, nz, nb, nk, istart, iend, q)
+  subroutine driver(nlon, nz, nb, nk, istart, iend, {"geom, " if geom else ""}q)
 {uses}    implicit none
     integer(kind=jpim), intent(in) :: nlon, nz, nb, nk, istart, iend
-    real(kind=jprb), intent(inout) :: q(nlon, nz, nb)
+{"    type(geom_type), intent(in) :: geom" + chr(10) if geom else ""}    real(kind=jprb), intent(inout) :: q(nlon, nz, nb)
     integer(kind=jpim) :: b, start, end
-{"    type(geom_type) :: geom" + chr(10) if geom else ""}    start = istart
+    start = istart
     end = iend
-{"    geom%nlev = nz + 1" + chr(10) if geom else ""}    do b = 1, nb
+    do b = 1, nb
 {call}{call if "driver_twice" in sw else ""}    end do
   end subroutine driver
 end module driver_mod
@@ -442,8 +447,8 @@ end module driver_mod
 PROGRAM = '''program drv
   use parkind1, only: jpim, jprb
   use driver_mod, only: driver
-  implicit none
-  integer(kind=jpim), parameter :: ng = 3
+@USEGEOM@  implicit none
+@DECLGEOM@  integer(kind=jpim), parameter :: ng = 3
   integer(kind=jpim), parameter :: gnlon(ng) = (/ 4, 5, 3 /), gnz(ng) = (/ 3, 4, 5 /), gnb(ng) = (/ 2, 3, 1 /)
   integer(kind=jpim), parameter :: gs(ng) = (/ 1, 2, 1 /), ge(ng) = (/ 4, 4, 3 /), gnk(ng) = (/ 2, 1, 3 /)
   integer(kind=jpim) :: g, nlon, nz, nb, jl, jk, b
@@ -458,7 +463,7 @@ PROGRAM = '''program drv
         end do
       end do
     end do
-    call driver(nlon, nz, nb, gnk(g), gs(g), ge(g), q)
+@SETGEOM@    call driver(nlon, nz, nb, gnk(g), gs(g), ge(g), @ARGGEOM@q)
     write(*, '(A,I0)') 'G', g
     do b = 1, nb
       do jk = 1, nz
@@ -478,6 +483,9 @@ VARIANTS = [
     ('pool', dict(check_bounds=True, cray_ptr_loc_rhs=False)), ('pool', dict(check_bounds=False, cray_ptr_loc_rhs=False)),
     ('pool', dict(check_bounds=True, cray_ptr_loc_rhs=True)),
 ]
+# variants whose output needs no compiler extension flag (what C40 / C41 see through make_cases(d)); the pool variants emit
+# Cray pointers and are built with `-fcray-pointer` (gfortran refuses them without the flag), see case_flags()
+PLAIN = [v for v in VARIANTS if v[0] != 'pool']
 # Variants whose output does NOT build with gfortran on the default template of the pinned tree (triage 2026-09-22):
 # the kernel-side stack dummy is declared `REAL, TARGET, CONTIGUOUS, INTENT(INOUT) :: P_STACK(K_P_STACK_SIZE)` and
 # CONTIGUOUS on an explicit-shape dummy violates F2008 C530 (gfortran: "has the CONTIGUOUS attribute but is not an array
@@ -488,9 +496,24 @@ CONDITIONAL = [
     ('diridx', dict(), 'CONTIGUOUS attribute on the explicit-shape stack dummy: rejected by gfortran (F2008 C530)'),
 ]
 
+# variants that are combined with every pair of switches in the thorough tier (one per family, default options); the
+# other option sets are combined with every combination of <= 1 switch
+PAIRED = [('hoist', dict()), ('hoist_alloc', dict()), ('rawstack', dict()), ('pool', dict(check_bounds=True, cray_ptr_loc_rhs=False)),
+          ('ftrptr', dict()), ('diridx', dict())]
+
 ASAN = ('-fsanitize=address',)
 CRAY = ('-fcray-pointer',)
 EXCLUSIVE = [{'nested_deep', 'nested_seq', 'inner_twice_shrink', 'inner_twice_grow', 'branch_skip'}]
+
+
+def program_source(sw):
+    """every size a temporary can depend on is defined before the driver is entered (the allocators evaluate the stack
+    size at the top of the driver unless a `!$loki stack-insert` pragma says otherwise)"""
+    geom = 'size_dt' in sw
+    return (PROGRAM.replace('@USEGEOM@', '  use geom_mod, only: geom_type\n' if geom else '')
+            .replace('@DECLGEOM@', '  type(geom_type) :: geom\n' if geom else '')
+            .replace('@SETGEOM@', '    geom%nlev = nz + 1\n' if geom else '')
+            .replace('@ARGGEOM@', 'geom, ' if geom else ''))
 
 
 def case_flags(case):
@@ -521,15 +544,24 @@ def _allowed(switches):
 
 
 def make_cases(d, variants=None):
+    """d=1 (quick): every combination of <= 1 switch x all variants; d=2 (thorough): additionally every combination of
+    2 switches x one default-option variant per allocator family (PAIRED).
+    Without `variants` (the C40 / C41 entry point) only the variants whose output is plain standard Fortran are produced
+    (PLAIN: hoisting and raw stack); run() adds the Cray-pointer pool variants (built with -fcray-pointer) and the
+    conditional ones."""
+    if variants is None:
+        variants = PLAIN
     cases = []
     for dev in deviations({k: [True] for k in SWITCHES}, d):
         switches = [k for k in SWITCHES if k in dev]
         if not _allowed(switches):
             continue
         sources = case_sources(switches)
-        for fam, opts in (VARIANTS if variants is None else variants):
+        for fam, opts in variants:
+            if len(switches) > 1 and (fam, opts) not in PAIRED:
+                continue
             oid = ','.join(f'{k}={v}' for k, v in sorted(opts.items()))
-            cases.append(dict(id=f'{"+".join(["base"] + switches)}|{fam}({oid})', sources=sources, driver=PROGRAM,
+            cases.append(dict(id=f'{"+".join(["base"] + switches)}|{fam}({oid})', sources=sources, driver=program_source(set(switches)),
                               extra=[['parkind1.f90', sccgen.PARKIND]], xform=fam, opts=opts, switches=switches))
     return cases
 
@@ -594,7 +626,7 @@ def sigfn(results_by_id):
                 single = results_by_id.get(cid)
                 if single and single['verdict'] == r['verdict']:
                     return f'{r["verdict"]} block={label} xform={name}'
-        return f'{r["verdict"]} blocks={"+".join(case["switches"]) or "base"} xform={xf}'
+        return f'{r["verdict"]} blocks={"+".join(case["switches"]) or "base"} xform={fam if xf == dflt else xf}'
     return sig
 
 
@@ -615,7 +647,7 @@ def run(ctx):
             now_building.append((fam, opts))
     if now_building:
         ctx.note(f'conditional variants that build on the default template and are enumerated: {now_building}')
-    variants = VARIANTS + now_building
+    variants = VARIANTS + now_building          # PLAIN + pool (needs -fcray-pointer) + conditional variants that build
     cases = make_cases(d, variants=variants)
     results = xform.judge_cases(ctx, cases, worker)
     by_id = {r['id']: r for r in results}
@@ -625,13 +657,20 @@ def run(ctx):
         pv = per_variant.setdefault(c['id'].split('|', 1)[1], dict(cases=0, changed_ok=0))
         pv['cases'] += 1
         pv['changed_ok'] += int(r['verdict'] == 'ok' and bool(r.get('changed')))
+    transient = [f'{r["id"]}: {r["transient_first_attempt_error"]}' for r in results if r.get('transient_first_attempt_error')]
+    if transient:
+        ctx.note(f'{len(transient)} cases needed a second attempt of the Loki step (transient first failure): {transient[:3]}')
     ctx.cov.update(
-        exhaustive=True, per_variant=per_variant, excluded_variants=excluded,
-        bound=dict(max_switches=d, switches=len(SWITCHES), variants=[f'{f}({o})' for f, o in variants], inputs=3),
-        rule=f'all combinations of <= {d} of {len(SWITCHES)} feature switches (nested-call shapes mutually exclusive) on the '
-             f'driver/kernel template x {len(variants)} allocator variants, each through a real Scheduler; 3 '
-             '(nlon,nz,nb,nk,start,end) inputs per run; non-trivial = the transformation changed the code and the program '
-             'still prints the original output with no bounds / address-sanitizer event',
+        exhaustive=True, transient_retries=len(transient), per_variant=per_variant, excluded_variants=excluded,
+        variants_needing_flags={f'{f}({",".join(f"{k}={v}" for k, v in sorted(o.items()))})': '-fcray-pointer (Cray pointers)'
+                                for f, o in VARIANTS if f == 'pool'},
+        bound=dict(max_switches=d, max_switches_with_nondefault_options=1, switches=len(SWITCHES),
+                   variants=[f'{f}({o})' for f, o in variants], inputs=3),
+        rule=f'all combinations of <= 1 of {len(SWITCHES)} feature switches on the driver/kernel template x every allocator variant '
+             f'({len(variants)})' + (' + all combinations of 2 switches (nested-call shapes mutually exclusive) x one default-option '
+                                     f'variant per family ({len([v for v in variants if v in PAIRED])})' if d > 1 else '')
+             + '; each case through a real Scheduler; 3 (nlon,nz,nb,nk,start,end) inputs per run; non-trivial = the transformation '
+             'changed the code and the program still prints the original output with no bounds / address-sanitizer event',
         samples=[dict(id=cases[0]['id']), dict(id=cases[-1]['id'], kernel=cases[-1]['sources'][-2][1])],
     )
     ctx.assumptions += ['gfortran -O0 -fcheck=bounds -fsanitize=address defines behaviour and storage validity',
